@@ -437,4 +437,7 @@ def _emission_protocol(r: RuleResult, f: FuncInfo, label: str):
 
 def run(prog: Program, tier: str) -> List[RuleResult]:
     # thorough: three selector levels (259 initial shapes per routine) instead of two (43)
-    return [rule_surgery(prog, 3 if tier == "thorough" else 2), rule_select(prog)]
+    from .c03 import carry1
+
+    # what a selector remembers about conclusions it already produced decides which branch fires: it must be reset for every concrete selector (shared with C03)
+    return [rule_surgery(prog, 3 if tier == "thorough" else 2), rule_select(prog), carry1(prog)]
